@@ -582,3 +582,52 @@ Theorem gen_ihu_ihu_up_ihu : forall (sds : list nat) (upa : list Z) (subnrow sub
   up_ihu sds upa subnrow subncol cs ea = (cds, out, (nrow, ncol)) /\ sh = (Z.of_nat nrow, Z.of_nat ncol).
 Proof. exact GenIhuDrvEq.gen_ihu_ihu_up_ihu. Qed.
 Print Assumptions gen_ihu_ihu_up_ihu.
+
+(* ihu_relocate_outlets, the last iterative stage, regenerated from the source as well (tools/gen_ihu.py) and plugged into the
+   generated driver: no hypothesis about relocate is left.  relocate_pf pf is Ihu.relocate with the fuel of the loop
+   `while len(bottleneck) > nbottlenecks` as a parameter (the model uses S (S (S nc)), the generated text S nsub; the instance
+   pf = S (S (S nc)) is the model by reflexivity: GenIhuRelModel).  When the hand model reports no error (up_ihu_no_marker
+   proves that under the checked hypotheses) and the fine raster has at least nc + 2 pixels, the fully generated driver
+   returns exactly up_ihu (the fuel of the passes does not matter once they succeed: ihu_iter_pf_fuel_mono). *)
+From PF Require Import GenIhuRelModel GenIhuRelEq GenIhuRelDrv.
+Theorem gen_ihu_relocate_outlets_pf_eq : forall sds upa (subnrow : Z) subncol cs nrow ncol fixl cds out,
+  length cds = (nrow * ncol)%nat ->
+  gen_ihu_ihu_relocate_outlets (S (length sds)) fixl cds out sds upa (subnrow, Z.of_nat subncol) (Z.of_nat nrow, Z.of_nat ncol)
+    (Z.of_nat cs)
+  = (let a' := relocate_pf (S (length sds)) sds upa subncol cs nrow ncol fixl (mkA cds out [] 0) in
+     if (a_err a' =? 0)%nat
+     then Some (a_cds a', a_out a', rel_fix3 sds upa subnrow subncol cs nrow ncol fixl cds out) else None).
+Proof. exact GenIhuRelEq.gen_ihu_relocate_outlets_pf_eq. Qed.
+Print Assumptions gen_ihu_relocate_outlets_pf_eq.
+Theorem gen_ihu_ihu_closed_pf : forall (sds : list nat) (upa : list Z) (subnrow subncol cs : nat) (ea : list bool),
+  let nrow := cdiv subnrow cs in
+  let ncol := cdiv subncol cs in
+  (length ea <= length sds)%nat ->
+  nomv_cell sds subncol cs ncol ->
+  (Z.of_nat (nrow * ncol) <= 2147483648)%Z ->
+  forall cds out sh,
+  gen_ihu_ihu (S (length sds)) sds upa (Z.of_nat subnrow, Z.of_nat subncol) (Z.of_nat cs) 5%Z true true 2%Z (eaf ea)
+              (gen_ihu_ihu_relocate_outlets (S (length sds)))
+  = Some (cds, out, sh) ->
+  up_ihu_pf (S (length sds)) sds upa subnrow subncol cs ea = (cds, out, (nrow, ncol)) /\ sh = (Z.of_nat nrow, Z.of_nat ncol).
+Proof. exact GenIhuRelDrv.gen_ihu_ihu_closed_pf. Qed.
+Print Assumptions gen_ihu_ihu_closed_pf.
+Theorem gen_ihu_ihu_closed_noerr : forall (sds : list nat) (upa : list Z) (subnrow subncol cs : nat) (ea : list bool),
+  let nrow := cdiv subnrow cs in
+  let ncol := cdiv subncol cs in
+  (length ea <= length sds)%nat ->
+  nomv_cell sds subncol cs ncol ->
+  (Z.of_nat (nrow * ncol) <= 2147483648)%Z ->
+  (S (S (nrow * ncol)) <= length sds)%nat ->
+  (let rep := repcell sds upa subncol cs nrow ncol (eaf ea) in
+   let out := ihu_outlets sds subncol cs nrow ncol rep in
+   let cds := ihu_nextidx sds subncol cs nrow ncol ea out in
+   let fixl := ihu_fix sds subncol cs nrow ncol out in
+   a_err (ihu_iter sds upa subncol cs nrow ncol 5 0 (mkA cds out [] 0) fixl) = 0%nat) ->
+  forall cds out sh,
+  gen_ihu_ihu (S (length sds)) sds upa (Z.of_nat subnrow, Z.of_nat subncol) (Z.of_nat cs) 5%Z true true 2%Z (eaf ea)
+              (gen_ihu_ihu_relocate_outlets (S (length sds)))
+  = Some (cds, out, sh) ->
+  up_ihu sds upa subnrow subncol cs ea = (cds, out, (nrow, ncol)) /\ sh = (Z.of_nat nrow, Z.of_nat ncol).
+Proof. exact GenIhuRelDrv.gen_ihu_ihu_closed_noerr. Qed.
+Print Assumptions gen_ihu_ihu_closed_noerr.
